@@ -112,6 +112,8 @@ struct VT {
   // first-write watch
   uintptr_t w_lo, w_hi;
   uint64_t w_seq;
+  uint64_t w_all[8];
+  int w_n;
   int alloc_tag;
   int64_t prio;
   // TSO store buffer (oldest first)
@@ -942,7 +944,10 @@ static void post_atomic(VT *me, int kind, uintptr_t addr, int size, uint64_t old
     me->nrs = 0;
     me->graced = false;
     progress();
-    if (me->w_seq == 0 && addr >= me->w_lo && addr < me->w_hi) me->w_seq = G.step;
+    if (addr >= me->w_lo && addr < me->w_hi) {
+      if (me->w_seq == 0) me->w_seq = G.step;
+      if (me->w_n < 8) me->w_all[me->w_n++] = G.step;
+    }
   } else {
     int k = 0;
     for (; k < me->nrs; ++k)
@@ -1157,8 +1162,16 @@ void watch_write(const void *addr, size_t len)
   me->w_lo = reinterpret_cast<uintptr_t>(addr);
   me->w_hi = me->w_lo + len;
   me->w_seq = 0;
+  me->w_n = 0;
 }
 uint64_t watched_write_seq() { return tl_vt ? tl_vt->w_seq : 0; }
+int watched_write_seqs(uint64_t *out, int max)
+{
+  if (!tl_vt) return 0;
+  int n = tl_vt->w_n < max ? tl_vt->w_n : max;
+  for (int i = 0; i < n; ++i) out[i] = tl_vt->w_all[i];
+  return n;
+}
 
 Observer::Observer(uint64_t cap)
 {
